@@ -9,7 +9,7 @@ PROPS_MODULES = ["C08", "ConnLoops", "C03"]
 RULE = ("family `srv` (frame mode): every implemented request type, written by the raw peer in 2 and 3 segments at every/sampled split "
         "points, byte by byte, and in random segmentations, both with all segments queued before the server reads and with one "
         "segment arriving at a time (the next is written only when the receive queue is empty); every cut offset 0..len of a message "
-        "followed by close. family `send`: the crate's send loop on a non-blocking socket with the minimum send buffer, pre-filled so "
+        "followed by close, and followed by a full close of the peer while data sent to it is unread (`rst`: ECONNRESET instead of end-of-stream); a body arriving in two deliveries with the next request already queued behind it. family `send`: the crate's send loop on a non-blocking socket with the minimum send buffer, pre-filled so "
         "that writes are accepted partially, drained by a slow reader that records the bytes and which recvmsg carried the descriptors; "
         "plus the iovec offset helper on all small length lists. non-trivial = distinct scenarios with at least two segments or a cut. family `fe` (cut mode): the frontend as receiver - every reply-bearing operation (and acknowledged set-operations) answered by the raw peer with the correct reply cut at every byte offset (size field untouched), then the peer closes: the call must return an error, never success, never wait.")
 ASSUMPTIONS = ["signals / ENOMEM appear only as scripted retries in the model", "AF_UNIX stream semantics as modelled in Model/Stream.lean"]
@@ -71,10 +71,15 @@ class FrameFamily(SrvFamily):
                     L.append(f"{pre}m - f0 {h} close")
                 else:
                     L.append(f"{pre}m {full[:2*c]} f{nf} {h} close")
+            # the same cuts, but the peer closes its socket while data sent to it is still unread (the reader then sees
+            # ECONNRESET instead of end-of-stream): still an error, and never a clean `disconnected` inside a message
+            for c in (cuts if len(cuts) <= 24 else cuts[::max(1, len(cuts) // 24)]):
+                L.append(f"{pre}m {full[:2*c] or '-'} f{nf if c else 0} {h} rst")
+            L.append(f"{pre}m {full} f{nf} {h} rst")
         return L
 
     def nontrivial(self, line, obs):
-        return "+" in line or " close" in line
+        return "+" in line or " close" in line or " rst" in line
 
 
 class SendFamily(Family):
